@@ -355,13 +355,13 @@ fn c10_loader_any_flags() {
 }
 
 // @harness
-// @prop C10
+// @prop C10 C15
 // @tier quick
 // @kani_args --no-assertion-reach-checks
 // @timeout 900
 // @fn fast_load_tap; Emulator::process_fast_load_event; ZXController::write_internal; ZXMemory::read; ZXMemory::write; Z80::pop_pc_from_stack
 // @sym 48K machine: LOAD and VERIFY of a 4-byte block (requests of 0..=5 bytes) at destinations that straddle the memory map: IX = 0x3FFF (last ROM byte, then RAM), 0x7FFF (page boundary), 0xFFFF (wraps to ROM address 0x0000), 0x5AFF (end of the screen attributes)
-// @assert as c10_loader_load; stores into ROM addresses have no effect (as LD (IX+0),L on the real machine), IX wraps modulo 64K
+// @assert as c10_loader_load; stores into ROM addresses have no effect (as LD (IX+0),L on the real machine), IX wraps modulo 64K without arithmetic overflow (C15: fast-loading a well-formed tape never overflows, also when the block ends at or beyond 0xFFFF)
 // @bound the listed destinations; unwind 9
 #[kani::proof]
 #[kani::unwind(9)]
